@@ -120,6 +120,7 @@ type Obs struct {
 	Nodes   []string       `json:"nodes,omitempty"`
 	Text    string         `json:"text,omitempty"`
 	OpCkpts []OpCheckpoint `json:"opCkpts,omitempty"`
+	Superseded bool        `json:"superseded,omitempty"` // published: a newer checkpoint was written before this one (the job removes the file again)
 }
 
 // OpCheckpoint describes one operator checkpoint of a job checkpoint / deploy request.
@@ -174,6 +175,8 @@ type generation struct {
 	retired bool
 	storeWG sync.WaitGroup // job-storage writes / removals in progress (retire waits for them: a restart never sees a half-written snapshot)
 	pubs, expectRetain, gotRetain int // publications / retention calls expected and finished (see WaitRetention)
+	maxPub  uint64 // highest checkpoint id written by (or loaded into) this generation's job
+	deployFailed bool // an operator's HandleDeploy returned an error or panicked: the job will never reach "running"
 	booting bool // until Boot returns: watermark events are not delivered (an operator still loading its DKV rejects them and the runner dies)
 	job     *jobs.Job
 	jobClock *Clock
@@ -268,6 +271,7 @@ func (c *Cluster) Close() {
 	if g != nil {
 		g.retire()
 	}
+	dkvDrain() // tuned memtables: flush / compaction tasks of halted operators still write into the directory
 	if c.ownDir {
 		os.RemoveAll(c.opt.Dir)
 	}
@@ -445,6 +449,11 @@ func (g *generation) protect(c *Call, do func() error) (err error) {
 			err = fmt.Errorf("panic in %s: %v", c, r)
 			g.c.observe(Obs{Kind: "panic", Gen: g.n, Node: c.To, Text: fmt.Sprint(r)})
 		}
+		if err != nil && c.Point == POpDeploy {
+			g.mu.Lock()
+			g.deployFailed = true
+			g.mu.Unlock()
+		}
 	}()
 	return do()
 }
@@ -595,10 +604,19 @@ func (c *Cluster) Boot() (restored uint64, err error) {
 	// wait until running
 	deadline := time.Now().Add(c.opt.Timeout)
 	for _, n := range g.srs {
-		select {
-		case <-n.reader.ready:
-		case <-time.After(time.Until(deadline)):
-			return restored, fmt.Errorf("%w: generation %d waiting for split assignment of %s (log: %s)", ErrBootTimeout, g.n, n.label, c.tail(12))
+		for waiting := true; waiting; {
+			select {
+			case <-n.reader.ready:
+				waiting = false
+			case <-time.After(2 * time.Millisecond):
+				g.mu.Lock()
+				failed := g.deployFailed
+				g.mu.Unlock()
+				if failed || time.Now().After(deadline) {
+					// (a failed operator deploy: jobs.Job logs "failed to start job" and waits for ever)
+					return restored, fmt.Errorf("%w: generation %d waiting for split assignment of %s (log: %s)", ErrBootTimeout, g.n, n.label, c.tail(12))
+				}
+			}
 		}
 	}
 	if !g.jobClock.WaitLabel("checkpointing", time.Until(deadline)) {
